@@ -9,7 +9,7 @@ TRACE_MOD = "LiquidVestingTrace.tla"
 
 MANIFEST_ENTRY = dict(engine="LiquidVesting", design="§4 C11",
    technique="TLA+ spec LiquidVesting.tla (on Schedule.tla): TLC exhaustive checking of the split transcription on the whole small input space and of the ledger invariants / step clauses on all accepted message histories of the as-built machine; TLC-simulated behaviours and seeded random large histories executed on the real liquidvesting, vesting, bank and erc20 message servers; every recorded helper output and every recorded step validated by TLC against the property layer (trace validation)",
-   text="The split of a lockup schedule (SubtractAmountFromPeriods) is proved exact on every period list of up to 4 periods with amounts 0..4 and every requested amount, on the model and, line by line, on the real function (plus seeded 10^18-scale inputs of up to 8 periods). Liquidate / transfer / redeem histories over three holders with scripted block times are explored exhaustively on the as-built machine (backing, schedule-sums-to-supply, exact split by release instants, no-early-unlock on redeem compared at every critical instant) and replayed on the real keepers, whose stores (module balance, liquid supply and holdings incl. the ERC20 side, Denom records, vesting account records) are projected after every message and checked by TLC.",
+   text="The split of a lockup schedule (SubtractAmountFromPeriods) is proved exact on every period list of up to 4 periods with amounts 0..4 and every requested amount, on the model and, line by line, on the real function (plus seeded 10^18-scale inputs of up to 8 periods). Liquidate / transfer / redeem histories over three holders with scripted block times are explored exhaustively on the as-built machine (backing, schedule-sums-to-supply, exact split by release instants, no-early-unlock on redeem compared at every critical instant) and replayed on the real keepers, whose stores (module balance, liquid supply and holdings incl. the ERC20 side, Denom records, vesting account records) are projected after every message and checked by TLC; after every redeem the recipient account object itself is asked what it locks at every critical instant (start/end time rule included) and the no-early-unlock clause is evaluated on those answers too; histories contain restarts of the module from its own exported genesis (after full redeems of older tokens), after which the same invariants and clauses apply.",
    note="Bounded by the constants in specs/LiquidVesting_*.cfg; messages run through MsgServiceRouter handlers on a cached context (baseapp.runMsgs semantics) with scripted block times, not through full DeliverTx; recipients have no delegations; locked amounts are derived from the recorded schedules through the denotation of Schedule.tla (the bank's own LockedCoins at the block time is compared as a diagnostic); TLC, the Json community module and the BigNum override are trusted.")
 
 # regression scenario of finding F2 (merge_min_start, repaired in /repo by c3dec7b; on a tree that has
@@ -282,7 +282,8 @@ def run(c):
         "TLC and the BigNum Java override (java/BigNum.java) are trusted",
         "the projection in harness/liquidvesting.go reads the real stores (bank balances and supply, ERC20 balanceOf, liquidvesting Denom records, auth accounts)",
         "messages are executed through MsgServiceRouter handlers on a cached context (as baseapp.runMsgs does) with scripted block times, not through full DeliverTx",
-        "what an account may spend is derived from its recorded schedules through the denotation of specs/Schedule.tla (locked = original vesting - min(unlocked, vested)); recipients have no delegations",
+        "what an account may spend is derived from its recorded schedules and end time (locked = original vesting - min(unlocked, vested), everything released from the recorded end time on) and, for the recipient of a redeem, also read from the account object's own LockedCoins(time); recipients have no delegations",
+        "a restart is the liquidvesting module's ExportGenesis -> JSON -> Validate -> wiped module store -> InitGenesis on the same application (bank, erc20 and auth state stay), not an application-level export and InitChain",
         "exhaustive model checking is bounded by the constants in specs/LiquidVesting_*.cfg",
     ]
 
